@@ -2,6 +2,7 @@ package main
 
 import (
 	"go/ast"
+	"go/constant"
 	"go/token"
 	"go/types"
 	"sort"
@@ -661,6 +662,98 @@ func (g *Graph) calleeSummary(cl Classifier, fi *FuncInfo, depth int, cache map[
 	return sum
 }
 
+// condCallee: e is (a negation of) a call to a boolean function of this package with a body.
+func (g *Graph) condCallee(e ast.Node) (*FuncInfo, bool) {
+	x, ok := e.(ast.Expr)
+	if !ok || g.Fi == nil {
+		return nil, false
+	}
+	neg := false
+	x = ast.Unparen(x)
+	for {
+		if u, isU := x.(*ast.UnaryExpr); isU && u.Op == token.NOT {
+			x, neg = ast.Unparen(u.X), !neg
+			continue
+		}
+		break
+	}
+	c, ok := x.(*ast.CallExpr)
+	if !ok {
+		return nil, false
+	}
+	fn := calleeOf(g.Info, c)
+	if fn == nil {
+		return nil, false
+	}
+	callee := g.P.FuncOf(fn)
+	if callee == nil || callee == g.Fi || callee.Decl.Body == nil || callee.Pkg != g.Fi.Pkg {
+		return nil, false
+	}
+	sig := fn.Type().(*types.Signature)
+	if sig.Results().Len() != 1 {
+		return nil, false
+	}
+	if b, isB := sig.Results().At(0).Type().Underlying().(*types.Basic); !isB || b.Kind() != types.Bool {
+		return nil, false
+	}
+	// arguments that are calls themselves would be skipped with it: only plain calls
+	for _, a := range c.Args {
+		if len(callsIn(a)) > 0 {
+			return nil, false
+		}
+	}
+	return callee, neg
+}
+
+// calleeSummaryWhen is calleeSummary restricted to the exits of a boolean function that return val (returns of
+// a non-constant value count for both outcomes).
+func (g *Graph) calleeSummaryWhen(cl Classifier, fi *FuncInfo, val bool, depth int, cache map[*FuncInfo]*evSummary) *evSummary {
+	old, had := cache[fi]
+	if had && old == nil {
+		return nil // in progress (recursion)
+	}
+	cache[fi] = nil
+	defer func() {
+		if had {
+			cache[fi] = old
+		} else {
+			delete(cache, fi)
+		}
+	}()
+	cg := g.P.GraphOf(fi)
+	ef := cg.eventsAt(cl, depth+1, cache)
+	sum := &evSummary{max: map[string]int{}}
+	first := true
+	for _, e := range cg.Exits() {
+		if e.Kind == ExitPanic {
+			continue
+		}
+		if rs, ok := e.Node.(*ast.ReturnStmt); ok && len(rs.Results) == 1 {
+			if tv, has := cg.Info.Types[rs.Results[0]]; has && tv.Value != nil && tv.Value.Kind() == constant.Bool && constant.BoolVal(tv.Value) != val {
+				continue
+			}
+		}
+		st, ok := ef.ExitState(e)
+		if !ok {
+			continue
+		}
+		if first {
+			sum.must, first = st.Must, false
+		} else {
+			sum.must = sum.must.intersect(st.Must)
+		}
+		for k, v := range st.Max {
+			if v > sum.max[k] {
+				sum.max[k] = v
+			}
+		}
+	}
+	if first {
+		sum.must = strset{}
+	}
+	return sum
+}
+
 func (g *Graph) eventsAt(cl Classifier, depth int, cache map[*FuncInfo]*evSummary) *EventFlow {
 	// callee events for a node
 	calleeEvents := func(n ast.Node) (must []string, may map[string]int) {
@@ -670,6 +763,9 @@ func (g *Graph) eventsAt(cl Classifier, depth int, cache map[*FuncInfo]*evSummar
 		switch n.(type) {
 		case *ast.GoStmt, *ast.DeferStmt:
 			return nil, nil
+		}
+		if callee, _ := g.condCallee(n); callee != nil && g.isBranchCond(n) {
+			return nil, nil // attributed per outcome on the branch edges
 		}
 		inspectNoLit(n, func(x ast.Node) bool {
 			c, ok := x.(*ast.CallExpr)
@@ -740,6 +836,30 @@ func (g *Graph) eventsAt(cl Classifier, depth int, cache map[*FuncInfo]*evSummar
 				m, y := calleeEvents(st.Node)
 				evs = append(evs, m...)
 				may = y
+			}
+			if st.Kind == StCond && depth < 2 {
+				if callee, neg := g.condCallee(st.Node); callee != nil && g.isBranchCond(st.Node) {
+					if sum := g.calleeSummaryWhen(cl, callee, st.Val != neg, depth, cache); sum != nil {
+						var ms []string
+						for e := range sum.must {
+							ms = append(ms, e)
+						}
+						sort.Strings(ms)
+						evs = append(evs, ms...)
+						for e, k := range sum.max {
+							extra := k
+							if sum.must[e] {
+								extra = k - 1
+							}
+							if extra > 0 {
+								if may == nil {
+									may = map[string]int{}
+								}
+								may[e] = extra
+							}
+						}
+					}
+				}
 			}
 			if len(evs) == 0 && len(may) == 0 {
 				return s
@@ -862,4 +982,17 @@ func (p *Program) MustBefore(mk func(g *Graph) Classifier, fn *FuncInfo, n ast.N
 		}
 	}
 	return out
+}
+
+// isBranchCond: n is the condition expression that ends a CFG block with two successors (if / for).
+func (g *Graph) isBranchCond(n ast.Node) bool {
+	for _, b := range g.CFG.Blocks {
+		if len(b.Succs) == 2 && len(b.Nodes) > 0 && b.Nodes[len(b.Nodes)-1] == n {
+			switch b.Succs[0].Kind {
+			case cfg.KindIfThen, cfg.KindForBody:
+				return true
+			}
+		}
+	}
+	return false
 }
